@@ -303,6 +303,11 @@ func (w *genWorld) check(res roundTripResult, v1, v2 coreView, directed bool) {
 				env.Violate("C18.store", "optout-rescheduled", "the opt-out schedule of x/dogfood (finish epoch -> operators, operator -> finish epoch) differs after the round trip: a pending opt-out must keep the finish epoch it was exported with: "+describeKeys([]string{k}), w.hist)
 				continue
 			}
+			if m == "dogfood" && p == 0x01 && len(v1.prev) == 0 {
+				// no key was replaced in the running epoch (F-18h cannot be the reason): the stored validator set itself is not reproduced
+				env.Violate("C18.store", "valset:store", "a validator entry of the x/dogfood store differs after the round trip ("+string(k[0])+" = only on the re-imported chain, - = only on the original): "+describeKeys([]string{k}), w.hist)
+				continue
+			}
 			if m == "dogfood" && p == 0x01 {
 				// F-18h (repaired): kept under its own sig so that a re-introduction is reported as such
 				env.Violate("C18.store", "validator-key-rotated-early", "a validator entry of x/dogfood differs after the round trip (a validator whose consensus key was replaced during the epoch must be exported under the key it still validates with, not under the operator's new key): "+describeKeys([]string{k}), w.hist)
@@ -394,6 +399,10 @@ func (w *genWorld) check(res roundTripResult, v1, v2 coreView, directed bool) {
 			env.Violate("C18.behaviour", "early-release", d, w.hist)
 			continue
 		}
+		if strings.Contains(d, "validator") && len(v1.prev) == 0 {
+			env.Violate("C18.behaviour", "valset:continuation", d, w.hist)
+			continue
+		}
 		if strings.Contains(d, "validator") {
 			// F-18h (repaired): both chains must keep the same validator set and emit the same updates
 			env.Violate("C18.behaviour", "validator-key-rotated-early", d, w.hist)
@@ -433,7 +442,7 @@ func (w *genWorld) randomOps(n int) {
 		w.asset = ai
 		// whole amounts (all that is free / all that is delegated) as often as partial ones: zero remainders
 		whole := w.rng.Chance(1, 3)
-		switch w.rng.Pick(3, 4, 4, 1, 4, 1, 2, 2, 1, 1, 1, 2, 1, 2) {
+		switch w.rng.Pick(3, 4, 4, 1, 4, 1, 2, 2, 1, 1, 1, 2, 1, 2, 3, 1) {
 		case 13:
 			// the chain runs on until every pending undelegation has completed (10 blocks + the x/dogfood hold): pools that
 			// everybody has left become rows of zeros, what was undelegated can be delegated again or withdrawn
@@ -448,6 +457,26 @@ func (w *genWorld) randomOps(n int) {
 				}
 			}
 			w.env.Outcome(fmt.Sprintf("op:mature:all-completed=%v", left == 0))
+		case 14:
+			// a genesis validator is jailed (what x/slashing / x/evidence do through StakingKeeper.Jail): it stays in the stored
+			// validator set, with its power, until the running epoch ends
+			g := w.rng.Intn(c.Cfg.NOperators)
+			if w.jailed[g] || !w.othersUntouched(g) {
+				continue
+			}
+			w.env.Outcome("op:jail:" + w.jail(g, true))
+		case 15:
+			// a jailed validator is unjailed (back in the set at the next epoch end)
+			g := -1
+			for h := 0; h < c.Cfg.NOperators; h++ {
+				if w.jailed[h] {
+					g = h
+				}
+			}
+			if g < 0 {
+				continue
+			}
+			w.env.Outcome("op:unjail:" + w.jail(g, false))
 		case 12:
 			// a genesis operator undelegates (a part of / all of) the stake it delegated to itself at genesis
 			g := w.rng.Intn(c.Cfg.NOperators)
@@ -621,9 +650,11 @@ func (w *genWorld) runOne(nOps int, directed bool, cont int) {
 	w.emitParams(p1)
 	d1 := viewDelegs(c, committedCtx(c))
 	w.emitDelegs(d1)
+	vs1 := viewValset(c, committedCtx(c))
+	w.emitValset(vs1)
 	res := w.roundTripWith(cont, directed)
 	var v2 coreView
-	obs, aobs, oobs, pobs, lobs := "import-failed", "import-failed", "import-failed", "import-failed", "import-failed"
+	obs, aobs, oobs, pobs, lobs, vobs := "import-failed", "import-failed", "import-failed", "import-failed", "import-failed", "import-failed"
 	if res.c2 != nil {
 		v2 = res.post
 		obs = v2.obs()
@@ -632,21 +663,26 @@ func (w *genWorld) runOne(nOps int, directed bool, cont int) {
 		oobs = fmt.Sprintf("validate=%v %s", res.validateErr["operator"] == "", res.postOp.obs())
 		pobs = "init=ok " + res.postParams.obs()
 		lobs = "init=ok " + res.postPools
+		vobs = res.postValset.obs()
 	}
 	w.op("gen.roundtrip", obs)
 	w.op("gen.assets", aobs)
 	w.op("gen.operator", oobs)
 	w.op("gen.params", pobs)
 	w.op("gen.pools", lobs)
+	w.op("gen.valset", vobs)
 	w.check(res, v1, v2, directed)
 	if res.c2 != nil {
 		w.checkQueries(res.queryDiff)
+		w.checkValset(vs1, res.postValset)
 	}
 	w.env.Report.Histories++
 	nEmptied, nZeroRows := emptiedPools(a1, d1)
 	w.env.Outcome(fmt.Sprintf("state:emptied-pools=%d,zero-share-delegations=%d", min(nEmptied, 3), min(nZeroRows, 3)))
-	if len(v1.unds) > 0 || len(v1.rev) > len(v1.cur) || nEmptied > 0 {
-		w.env.DistinctKey(fmt.Sprintf("u%d-q%d-p%d-e%d-%x", len(v1.unds), len(v1.qs), len(v1.prev), nEmptied, sha8([]byte(v1.obs()+a1.obs()))))
+	// validators of the stored set that are jailed at the export point (jailed after the last epoch end)
+	w.env.Outcome(fmt.Sprintf("state:jailed-in-valset=%d/%d", vs1.nJail, len(vs1.vals)))
+	if len(v1.unds) > 0 || len(v1.rev) > len(v1.cur) || nEmptied > 0 || vs1.nJail > 0 {
+		w.env.DistinctKey(fmt.Sprintf("u%d-q%d-p%d-e%d-j%d-%x", len(v1.unds), len(v1.qs), len(v1.prev), nEmptied, vs1.nJail, sha8([]byte(v1.obs()+a1.obs()+strings.Join(vs1.jailed, ",")))))
 	}
 	w.env.Outcome(fmt.Sprintf("state:unds=%d,prev=%d", min(len(v1.unds), 3), min(len(v1.rev)-len(v1.cur), 2)))
 }
@@ -815,6 +851,9 @@ func domGenesis(env *Env) error {
 				w.runOne(0, true, 12)
 			})
 		}
+	}
+	if env.Int("jail", 1) != 0 {
+		genJailScenarios(env, rng) // dom_genesis_jail.go: J1..J4, validators jailed at the export point
 	}
 	if env.Int("boundary", 1) != 0 {
 		// (a boot failure ends the boundary scenarios as a whole: they share one function)
